@@ -1,5 +1,7 @@
 import OrxPar.Props.C06
+import OrxPar.Props.AllSchedules
 open OrxPar
 #print axioms C06_collect_into
 #print axioms C06_appends_collect_vec
 #print axioms C06_pinned_defect_witness
+#print axioms C06_collect_into_all_schedules
